@@ -909,9 +909,14 @@ def run_utils(ctx, impl, rng, quick, dmax):
     cs, ex = [], []
     for _ in range(nU):
         n = rng.randint(1, dmax)
-        dt = rng.choice(['float', 'float32', 'int', 'bool'])      # float32: fractional (dyadic) weights in single precision
+        # float32: fractional (dyadic) weights in single precision; narrow integer types: weights in the upper half of the type's
+        # range, so that the sum of two reciprocal edges does not fit the storage type (A + A^T must not be formed in it)
+        dt = rng.choice(['float', 'float32', 'int', 'bool', 'uint8', 'int8', 'int16', 'int32'])
         m = rsm(rng, n, n, nonneg=True)
-        if dt not in ('float', 'float32'):
+        big = {'uint8': (130, 255), 'int8': (70, 127), 'int16': (17000, 32767), 'int32': (2 ** 30 + 1, 2 ** 31 - 1)}
+        if dt in big:
+            m['coo'] = [[i, j, rng.randint(*big[dt])] for i, j, v in m['coo']]
+        elif dt not in ('float', 'float32'):
             m['coo'] = [[i, j, 1 if dt == 'bool' else max(1, int(v))] for i, j, v in m['coo']]
         m['dtype'] = dt
         w = rng.random() < 0.5
